@@ -234,6 +234,47 @@ def run_uuid(rec, seed, shard, nshards, tier):
     core.hyp_run(rec, prop_uuid, uuid_cases(), n, seed)
 
 
+# ---------------------------------------------------------------- the consumer of stdout goes away, then --load
+def prop_gone(case, rec):
+    """The reader of stdout disappears after k lines (pcfg_guesser.py | head -k, a cracker that exits): whatever the tool does
+    then, a later --load must not lose anything the consumer had not received (repeats are what the documentation promises)."""
+    m, k = case['model'], case['lines']
+    root = _root()
+    rsmodel.write_ruleset(os.path.join(root, 'Rules', 'T'), m)
+    u = uninterrupted(case, root, {})
+    if len(u.lines) < 2:
+        rec.skip('too_small')
+        return
+    k = k % len(u.lines)
+    for ext in ('.sav', '.omn'):
+        if os.path.exists(os.path.join(root, 'g' + ext)):
+            os.remove(os.path.join(root, 'g' + ext))
+    a = guard(case, session.run_main, root, ['-r', 'T', '-s', 'g'], stdout_fail_after=k)
+    b = guard(case, session.run_main, root, ['-r', 'T', '-s', 'g', '--load'])
+    received = a.lines[:k]
+    rec.case({'lines_before_consumer_left': k, 'U': len(u.lines), 'resumed': len(b.lines)}, 0 < k < len(u.lines) - 1, ['stdout_consumer_gone_then_load'], key=[m, k])
+    if received != u.lines[:len(received)]:
+        raise Violation('gone_prefix', f'what the consumer received before it left is not the start of the stream: {received[:5]} vs {u.lines[:5]}', case)
+    missing = Counter(u.lines) - (Counter(received) + Counter(b.lines))
+    if missing:
+        raise Violation('lost_guesses', f'consumer left after {k} lines, then --load: guesses neither received before nor written after: {list(missing.items())[:5]} '
+                        f'(resumed run starts with {b.lines[:3]}; save file {a.sav and a.sav.get("guessing_info")})', case)
+    foreign = set(b.lines) - set(u.lines)
+    if foreign:
+        raise Violation('gone_foreign', f'resumed run writes lines that are not guesses of the ruleset: {sorted(foreign)[:5]}', case)
+
+
+@st.composite
+def gone_cases(draw):
+    m = draw(S.rulesets(max_pt=30, markov=draw(st.sampled_from(['no', 'yes'])), max_structs=3, rich_levels=True))
+    return {'model': m, 'lines': draw(st.integers(0, 40))}
+
+
+def run_gone(rec, seed, shard, nshards, tier):
+    n = {'quick': 40, 'thorough': 600}[tier]
+    core.hyp_run(rec, prop_gone, gone_cases(), n, seed)
+
+
 # ---------------------------------------------------------------- deep sessions: long transition lists, late interruption
 def prop_deep(case, rec):
     """One base structure over two long lists of distinct probabilities; the queue (real PcfgQueue, real update_save_config /
@@ -355,4 +396,5 @@ PARTS = [
     Part('multi_cycle', run_cycles, prop_cycles, {'quick': 6, 'thorough': 16}),
     Part('uuid', run_uuid, prop_uuid, {'quick': 1, 'thorough': 4}),
     Part('deep_restore', run_deep, prop_deep, {'quick': 2, 'thorough': 8}),
+    Part('consumer_gone_then_load', run_gone, prop_gone, {'quick': 3, 'thorough': 8}),
 ]
